@@ -28,8 +28,11 @@ TABLE = [
     ("C16", r".*", r".*", ["lu_small"]),
     ("C15", r".*", r".*", ["default_mass"]),
     ("C05", r".*", r".*", ["teval_terminal"]),
-    ("C09", r".*", r".*", ["events_basic"]),
-    ("C10", r".*", r".*", ["teval_terminal", "events_basic"]),
+    ("C08", r"solout", r"brent|events\.time|span\.", ["brent_stays_in_bracket"]),
+    ("C03", r"solout", r"brent|event_function|events\.time", ["brent_stays_in_bracket"]),
+    ("C09", r".*", r"brent", ["brent_stays_in_bracket"]),
+    ("C09", r".*", r".*", ["teval_terminal"]),
+    ("C10", r".*", r".*", ["teval_terminal"]),
     ("C12", r".*", r".*", ["output_options"]),
     ("C13", r".*", r".*", ["radau_scalar_vector_tol"]),
 ]
